@@ -42,13 +42,14 @@ fn main() {
                 continue;
             }
         };
-        let file = match syn::parse_file(&src) {
+        let mut file = match syn::parse_file(&src) {
             Ok(f) => f,
             Err(e) => {
                 out_files.push(json!({"path": path, "fatal": format!("parse error: {}", e)}));
                 continue;
             }
         };
+        let expanded = rewrite::expand_item_macros(&mut file);
         let mut items_out = vec![];
         for ip in fp["items"].as_array().unwrap() {
             items_out.push(extract_item(&file, ip, &rules, &plan));
@@ -56,7 +57,7 @@ fn main() {
         // audit: list every fn in the file (path + whether it has unsafe, closures) for the closure check
         let mut audit = rewrite::Audit::default();
         syn::visit::Visit::visit_file(&mut audit, &file);
-        out_files.push(json!({"path": path, "items": items_out, "all_fns": audit.fns}));
+        out_files.push(json!({"path": path, "items": items_out, "all_fns": audit.fns, "macro_expansions": expanded}));
     }
     println!("{}", serde_json::to_string(&json!({"files": out_files})).unwrap());
 }
